@@ -242,15 +242,18 @@ func (w *Reconciler) syncJobTasks(
 // getTaskForRef returns the task for a TaskRef from the cache. The cache may not
 // have observed a task that was only just created, so before an unfinished task
 // is treated as lost (which is irreversible), its absence is confirmed with the
-// apiserver. Returns nil if the task does not exist.
+// apiserver. For the same reason the cache may still hold a version of the task
+// that is older than the one which was recorded as finished, in which case the
+// current version is read from the apiserver instead of reverting to the stale one.
+// Returns nil if the task does not exist.
 func (w *Reconciler) getTaskForRef(
 	ctx context.Context, taskMgr jobtasks.Executor, ref execution.TaskRef,
 ) (jobtasks.Task, error) {
 	task, err := taskMgr.Lister().Get(ref.Name)
-	if err == nil {
+	if err == nil && (ref.FinishTimestamp.IsZero() || isTaskFinished(task)) {
 		return task, nil
 	}
-	if !ref.FinishTimestamp.IsZero() {
+	if err != nil && !ref.FinishTimestamp.IsZero() {
 		return nil, nil
 	}
 	task, err = taskMgr.Client().Get(ctx, ref.Name)
